@@ -115,6 +115,10 @@ def make_catalogue(kind, root):
         tmpl = os.path.join(root, "data", "{name}-{version}.dat")      # non-temporal: every entry is [datetime.min, datetime.max]
         names = {1: "alpha-v1.dat", 2: "caf\udce9_\u00fc-v2.dat", 3: "gamma-v10.dat"}     # 2: a name that is not valid UTF-8 (PEP 383 lone surrogate) next to a proper non-ASCII letter
     for i, n in names.items():
+        try:
+            os.fsencode(n)
+        except UnicodeError:
+            n = n.encode("ascii", "replace").decode().replace("?", "_")     # a file system encoding that cannot spell it
         p = os.path.join(root, "data", n)
         with open(p, "wb") as f:
             f.write(b"x")
